@@ -34,6 +34,7 @@ cfg("c04_t1", faults=2, srcfaults="TRUE", invs=FAULT, maxid=2, maxwm=0)
 cfg("sim_c01", depth=7)
 cfg("sim_c01_t", src="{s1, s2}", maxid=3, maxwm=2, chancap=4, ackcap=2, depth=14)
 cfg("sim_c03", maxid=2, maxbatch=1, maxwm=2, depth=14)          # two watermarks: late first acks, clamps
+cfg("sim_c03i", maxid=2, maxbatch=1, maxwm=2, depth=15, idle=1)  # ... followed by an idle second (receiver keep-alive)
 cfg("sim_c02", late="{t2}", depth=8)
 cfg("sim_c02b", src="{s1, s2}", maxid=1, depth=8)
 cfg("sim_c02i", maxid=3, maxwm=1, depth=9, idle=1)           # with one idle second (keep-alives fire)
